@@ -4,7 +4,7 @@ from __future__ import annotations
 import ast
 import re
 
-from .common import AnalysisError, norm_src, unparse
+from .common import call_arg, AnalysisError, norm_src, unparse
 from .defassign import analyse_module
 from .exact import const_value
 
@@ -47,6 +47,253 @@ def assignments_to(fn, name):
                 if isinstance(x, ast.Name) and x.id == name:
                     out.append(n)
     return out
+
+
+_SINGLE = {}
+
+
+def single_defs(fn):
+    """name -> value for the local names bound exactly once in fn by a plain assignment"""
+    if id(fn) not in _SINGLE:
+        counts, vals = {}, {}
+        params = {a.arg for a in fn.args.args + fn.args.kwonlyargs}
+        for n in ast.walk(fn):
+            if isinstance(n, ast.Name) and isinstance(n.ctx, ast.Store):
+                counts[n.id] = counts.get(n.id, 0) + 1
+            if isinstance(n, ast.Assign) and len(n.targets) == 1 \
+                    and isinstance(n.targets[0], ast.Name):
+                vals[n.targets[0].id] = n.value
+        _SINGLE[id(fn)] = ({k: v for k, v in vals.items()
+                            if counts.get(k) == 1 and k not in params}, fn)
+    return _SINGLE[id(fn)][0]
+
+
+def resolve(fn, node, depth=0, keep=()):
+    """copy of the expression `node` in which every local name that is bound exactly once in
+    `fn` (by a plain assignment) is replaced by its (resolved) value -- what the expression
+    means in terms of parameters, loop variables and calls.  For comparisons only."""
+    import copy
+    defs = single_defs(fn)
+
+    class R(ast.NodeTransformer):
+        def visit_Name(self, n):
+            if isinstance(n.ctx, ast.Load) and depth <= 6 and n.id in defs \
+                    and n.id not in keep:
+                return resolve(fn, defs[n.id], depth + 1, keep)
+            return n
+    for x in ast.walk(node):
+        x.__dict__.pop("_parent_tmp", None)
+    saved = [(x, x.__dict__.pop("_parent")) for x in ast.walk(node) if "_parent" in x.__dict__]
+    try:
+        new = copy.deepcopy(node)
+    finally:
+        for x, p in saved:
+            x._parent = p
+    return R().visit(new)
+
+
+def rtext(fn, node, keep=()):
+    return unparse(resolve(fn, node, 0, keep))
+
+
+def role_of(fn, name):
+    """what a local name stands for, independent of its spelling"""
+    params = [a.arg for a in fn.args.args]
+    if name in params:
+        return f"param:{name}"
+    for n in ast.walk(fn):
+        tg, it = None, None
+        if isinstance(n, ast.For):
+            tg, it = n.target, n.iter
+        elif isinstance(n, ast.comprehension):
+            tg, it = n.target, n.iter
+        if tg is None:
+            continue
+        names = [x.id for x in ast.walk(tg) if isinstance(x, ast.Name)]
+        if name not in names:
+            continue
+        src = rtext(fn, it)
+        if isinstance(it, ast.Call) and unparse(it.func) == "enumerate" and it.args \
+                and isinstance(tg, ast.Tuple) and len(tg.elts) == 2:
+            kind = "index" if unparse(tg.elts[0]) == name else "each"
+            return f"{kind}({rtext(fn, it.args[0])})"
+        return f"each({src})"
+    defs = single_defs(fn)
+    if name in defs:
+        return None         # resolved by substitution
+    return "local"          # several bindings: a working variable of the function
+
+
+def sem_template(fn, node):
+    """canonical string template of an expression: list of ('s', literal) / ('h', hole) with
+    f-strings, concatenation and str.format unified, temporaries resolved and the names in
+    holes replaced by their roles"""
+    node = resolve(fn, node)
+    parts = []
+
+    def lit(t):
+        if parts and parts[-1][0] == "s":
+            parts[-1] = ("s", parts[-1][1] + t)
+        elif t:
+            parts.append(("s", t))
+
+    def hole(n, spec=""):
+        import copy
+
+        class T(ast.NodeTransformer):
+            def visit_Name(self, x):
+                r = role_of(fn, x.id)
+                if r:
+                    return ast.Name(id="<" + r + ">", ctx=ast.Load())
+                return x
+        txt = unparse(T().visit(copy.deepcopy(n)))
+        parts.append(("h", txt + (":" + spec if spec else "")))
+
+    def add(n):
+        if isinstance(n, ast.Constant) and isinstance(n.value, str):
+            lit(n.value)
+        elif isinstance(n, ast.JoinedStr):
+            for v in n.values:
+                if isinstance(v, ast.Constant):
+                    lit(v.value)
+                else:
+                    spec = ""
+                    if v.format_spec is not None:
+                        spec = "".join(x.value for x in v.format_spec.values
+                                       if isinstance(x, ast.Constant))
+                    hole(v.value, spec)
+        elif isinstance(n, ast.BinOp) and isinstance(n.op, ast.Add):
+            add(n.left)
+            add(n.right)
+        elif isinstance(n, ast.Call) and isinstance(n.func, ast.Attribute) \
+                and n.func.attr == "format" and isinstance(n.func.value, ast.Constant) \
+                and isinstance(n.func.value.value, str) and not n.keywords:
+            import string
+            k = 0
+            for text, field, spec, _conv in string.Formatter().parse(n.func.value.value):
+                lit(text)
+                if field is not None:
+                    idx = int(field) if field.isdigit() else k
+                    k += 1
+                    if idx < len(n.args):
+                        hole(n.args[idx], spec or "")
+                    else:
+                        parts.append(("h", "?"))
+        elif isinstance(n, ast.Call) and unparse(n.func) == "str" and len(n.args) == 1:
+            hole(n.args[0])
+        else:
+            hole(n)
+    add(node)
+    return parts
+
+
+def templates_with(fn, needle):
+    """canonical templates of the string-building expressions of fn whose literal text
+    contains `needle` (outermost expressions only)"""
+    out = []
+    seen = set()
+
+    def stringy(n):
+        return isinstance(n, ast.JoinedStr) or (
+            isinstance(n, ast.BinOp) and isinstance(n.op, ast.Add)) or (
+            isinstance(n, ast.Call) and isinstance(n.func, ast.Attribute)
+            and n.func.attr == "format")
+    for n in ast.walk(fn):
+        if not stringy(n) or id(n) in seen:
+            continue
+        par = getattr(n, "_parent", None)
+        if par is not None and stringy(par) and not isinstance(par, ast.FormattedValue):
+            continue
+        if isinstance(par, ast.FormattedValue):
+            continue
+        for x in ast.walk(n):
+            seen.add(id(x))
+        try:
+            t = sem_template(fn, n)
+        except RecursionError:
+            continue
+        if any(k == "s" and needle in v for k, v in t):
+            out.append((t, n))
+    return out
+
+
+def dependence_closure(fn, name, within=None):
+    """names the value of `name` may depend on (flow-insensitive def-use closure over the
+    assignments inside `within` (default: the whole function), including control dependence on
+    the tests of enclosing ifs and on the iterables of enclosing loops inside `within`)"""
+    lo, hi = (within.lineno, within.end_lineno) if within is not None else (0, 10**9)
+    seen, todo = set(), [name]
+    while todo:
+        nm = todo.pop()
+        if nm in seen:
+            continue
+        seen.add(nm)
+        for a in assignments_to(fn, nm):
+            if not (lo <= a.lineno <= hi):
+                continue
+            srcs = [a.value] if isinstance(a, ast.Assign) else [a.iter]
+            for anc in ancestors(a):
+                if anc is within:
+                    break
+                if isinstance(anc, (ast.If, ast.While)):
+                    srcs.append(anc.test)
+                elif isinstance(anc, ast.For):
+                    srcs.append(anc.iter)
+            for src in srcs:
+                bound = {x.id for c in ast.walk(src) if isinstance(c, ast.comprehension)
+                         for x in ast.walk(c.target) if isinstance(x, ast.Name)}
+                for x in ast.walk(src):
+                    if isinstance(x, ast.Name) and x.id not in bound and x.id not in seen:
+                        todo.append(x.id)
+    return seen
+
+
+def level_representative(rep):
+    """iterations(): the dataset keys of one refinement level are narrowed to one process
+    component before their iterations are listed.  The component used for level rl must be
+    chosen among the components *of that level* (levels may have different numbers of
+    components); a representative chosen from all keys silently drops the levels that lack
+    it."""
+    fn = fnode(rep, "iterations")
+    key = f"{RD}::iterations::level-representative"
+    loops = [n for n in ast.walk(fn) if isinstance(n, ast.For)
+             and isinstance(n.iter, ast.Call) and unparse(n.iter.func) == "range"
+             and "rl" in unparse(n.iter) and isinstance(n.target, ast.Name)]
+    if not loops:
+        raise AnalysisError("iterations: loop over refinement levels not found")
+    n_sites = 0
+    for lp in loops:
+        rl = lp.target.id
+        for comp in ast.walk(lp):
+            if not isinstance(comp, (ast.ListComp, ast.GeneratorExp, ast.SetComp)):
+                continue
+            for g in comp.generators:
+                tvars = {x.id for x in ast.walk(g.target) if isinstance(x, ast.Name)}
+                for cond in g.ifs:
+                    for sub in ast.walk(cond):
+                        # a substring / membership filter on the key by a selected token
+                        if isinstance(sub, ast.Compare) and len(sub.ops) == 1 \
+                                and isinstance(sub.ops[0], (ast.In, ast.NotIn)) \
+                                and isinstance(sub.left, ast.Name) \
+                                and sub.left.id not in tvars \
+                                and any(isinstance(x, ast.Name) and x.id in tvars
+                                        for x in ast.walk(sub.comparators[0])):
+                            tok = sub.left.id
+                            n_sites += 1
+                            defs = assignments_to(fn, tok)
+                            inside = [a for a in defs
+                                      if lp.lineno <= a.lineno <= lp.end_lineno]
+                            dep = dependence_closure(fn, tok, within=lp)
+                            ok = bool(defs) and len(inside) == len(defs) and rl in dep
+                            rep.check(ok, "level-representative", f"{key}::{tok}",
+                                      f"the keys of level `{rl}` are filtered by `{tok}`, which "
+                                      "is not chosen from the keys of that level ("
+                                      + ("assigned outside the level loop" if len(inside) != len(defs)
+                                         else f"does not depend on `{rl}`")
+                                      + "): a level without that component is dropped from "
+                                      "the catalogue", node=sub)
+    if n_sites == 0:
+        raise AnalysisError("iterations: the per-level component filter was not found")
 
 
 # =============================================================================================
@@ -256,18 +503,25 @@ def row_index_provenance(rep):
                             ok = True
         rep.check(ok, "row-index-provenance", key, why, node=w,
                   detail={"row": unparse(row)})
-        # guard/use agreement
-        guard = None
-        for a in ancestors(w):
-            if isinstance(a, ast.If) and "is not None" in unparse(a.test):
-                guard = a
-                break
-        written = unparse(data_kw[0])
-        okg = guard is not None and f"{written} is not None" in unparse(guard.test)
+        # guard/use agreement: on the way to the write, the very expression that is written
+        # has been tested `is not None`
+        from . import boolnorm as B
+        written = rtext(fn, data_kw[0])
+        conds = []
+        child, anc = w, getattr(w, "_parent", None)
+        while anc is not None and anc is not fn:
+            if isinstance(anc, ast.If):
+                inbody = any(child is x or child in list(ast.walk(x)) for x in anc.body)
+                t = anc.test if inbody else None
+                if t is not None:
+                    conj = t.values if isinstance(t, ast.BoolOp) and isinstance(t.op, ast.And) \
+                        else [t]
+                    conds += [rtext(fn, c) for c in conj]
+            child, anc = anc, getattr(anc, "_parent", None)
+        okg = f"{written} is not None" in conds
         rep.check(okg, "none-guard", f"{RD}::save_data::none-guard",
-                  f"the value written is `{written}` but the None test is "
-                  f"`{unparse(guard.test) if guard is not None else '(absent)'}`: a None entry "
-                  "is not skipped as documented", node=guard or w)
+                  f"the value written is `{written}` but the tests on the way to the write are "
+                  f"{conds or '(none)'}: a None entry is not skipped as documented", node=w)
         # dataset write discipline: delete-then-create, no in-place write
         blk = None
         stw = parent_stmt(w)
@@ -277,18 +531,27 @@ def row_index_provenance(rep):
             if isinstance(b, list) and stw in b:
                 blk = b
         okd = False
-        if blk is not None:
+        h5 = unparse(w.func.value)
+        if blk is not None and w.args:
             i = blk.index(stw)
-            skey = unparse(w.args[0]) if w.args else None
+            skey = rtext(fn, w.args[0])
             for prev in blk[:i]:
-                if isinstance(prev, ast.If) and skey and f"{skey} in" in unparse(prev.test) \
-                        and any(isinstance(x, ast.Delete) and unparse(x.targets[0])
-                                == f"f[{skey}]" for x in prev.body):
+                if isinstance(prev, ast.If) and isinstance(prev.test, ast.Compare) \
+                        and isinstance(prev.test.ops[0], ast.In) \
+                        and rtext(fn, prev.test.left) == skey \
+                        and B.container(prev.test.comparators[0]) == h5 \
+                        and any(isinstance(x, ast.Delete)
+                                and isinstance(x.targets[0], ast.Subscript)
+                                and unparse(x.targets[0].value) == h5
+                                and rtext(fn, x.targets[0].slice) == skey for x in prev.body):
                     okd = True
         rep.check(okd, "dataset-write", f"{RD}::save_data::delete-then-create",
                   "an existing dataset of the same name must be deleted before create_dataset "
                   "(the new array replaces it whatever its dtype/shape)", node=w)
     bad = []
+    h5names = {x.optional_vars.id for n in ast.walk(fn) if isinstance(n, ast.With)
+               for x in n.items if isinstance(x.optional_vars, ast.Name)
+               and "h5py.File" in unparse(x.context_expr)}
     for n in ast.walk(fn):
         if isinstance(n, (ast.Assign, ast.AugAssign)):
             for t in (n.targets if isinstance(n, ast.Assign) else [n.target]):
@@ -297,7 +560,7 @@ def row_index_provenance(rep):
                 while isinstance(root, ast.Subscript):
                     root = root.value
                     depth += 1
-                if isinstance(root, ast.Name) and root.id == "f" and depth >= 1:
+                if isinstance(root, ast.Name) and root.id in h5names and depth >= 1:
                     bad.append(n)
         if isinstance(n, ast.Call) and isinstance(n.func, ast.Attribute) \
                 and n.func.attr in ("require_dataset", "write_direct", "resize"):
@@ -309,48 +572,66 @@ def row_index_provenance(rep):
 
 
 def template_agreement(rep):
-    """cache directory, file name and dataset key templates of writer and reader"""
+    """cache directory, file name and dataset key templates of writer and reader, compared as
+    canonical templates (f-string / concatenation / format unified, names replaced by roles)"""
     sv, rd = fnode(rep, "save_data"), fnode(rep, "read_aurel_data")
 
-    def templ(fn, pred):
-        return sorted({norm_src(n) for n in ast.walk(fn) if isinstance(n, ast.JoinedStr)
-                       and pred(unparse(n))})
+    def uniq(ts):
+        out = []
+        for t, _n in ts:
+            if t not in out:
+                out.append(t)
+        return out
 
-    def et_dir(fn):
-        for n in ast.walk(fn):
-            if isinstance(n, ast.Assign) and unparse(n.targets[0]) == "datapath" \
-                    and "all_iterations" in unparse(n.value):
-                return norm_src(n.value)
-        return None
-    rep.check(et_dir(sv) is not None and et_dir(sv) == et_dir(rd), "template-agreement",
-              f"{RD}::save_data~read_aurel_data::cache-dir",
-              f"cache directory templates differ: writer {et_dir(sv)} reader {et_dir(rd)}",
-              node=rd)
-    f1 = templ(sv, lambda s: ".hdf5" in s)
-    f2 = templ(rd, lambda s: ".hdf5" in s)
+    def show(ts):
+        return ["".join(v if k == "s" else "{" + v + "}" for k, v in t) for t in ts]
+    d1, d2 = uniq(templates_with(sv, "all_iterations")), uniq(templates_with(rd, "all_iterations"))
+    if not d1 or not d2:
+        raise AnalysisError("save_data / read_aurel_data: cache directory template not found")
+    rep.check(d1 == d2, "template-agreement", f"{RD}::save_data~read_aurel_data::cache-dir",
+              f"cache directory templates differ: writer {show(d1)} reader {show(d2)}", node=rd)
+    f1, f2 = uniq(templates_with(sv, ".hdf5")), uniq(templates_with(rd, ".hdf5"))
+    if not f1 or not f2:
+        raise AnalysisError("save_data / read_aurel_data: file name template not found")
     rep.check(f1 == f2 and len(f1) == 1, "template-agreement",
               f"{RD}::save_data~read_aurel_data::file-name",
-              f"file name templates differ: writer {f1} reader {f2}", node=rd)
-    k1 = templ(sv, lambda s: " rl=" in s)
-    k2 = [t for t in templ(rd, lambda s: " rl=" in s)]
-    rep.check(bool(k1) and set(k1) <= set(k2), "template-agreement",
-              f"{RD}::save_data~read_aurel_data::dataset-key",
-              f"dataset key templates differ: writer {k1} reader {k2}", node=rd)
-    # trailing-slash normalisation in both
+              f"file name templates differ: writer {show(f1)} reader {show(f2)}", node=rd)
+    k1, k2 = uniq(templates_with(sv, " rl=")), uniq(templates_with(rd, " rl="))
+    if not k1 or not k2:
+        raise AnalysisError("save_data / read_aurel_data: dataset key template not found")
+
+    def tail(t):        # the part after the variable name: ' rl=<level>'
+        i = max(j for j, (k, v) in enumerate(t) if k == "s" and " rl=" in v)
+        return t[i:]
+    rep.check({tuple(tail(t)) for t in k1} <= {tuple(tail(t)) for t in k2},
+              "template-agreement", f"{RD}::save_data~read_aurel_data::dataset-key",
+              f"dataset key templates differ: writer {show(k1)} reader {show(k2)}", node=rd)
+    # trailing-slash normalisation in both: somewhere the path is tested with endswith('/')
+    # and a '/' is appended when the test fails
     for fn, nm in ((sv, "save_data"), (rd, "read_aurel_data")):
-        ok = any(isinstance(n, ast.If) and "datapath.endswith('/')" in unparse(n.test)
-                 for n in ast.walk(fn))
+        ok = False
+        for n in ast.walk(fn):
+            if isinstance(n, (ast.If, ast.IfExp)) and ".endswith('/')" in unparse(n.test):
+                neg = unparse(n.test).startswith("not ")
+                branch = n.body if neg else n.orelse
+                branch = branch if isinstance(branch, list) else [branch]
+                txt = " ".join(unparse(x) for x in branch)
+                ok = ok or "'/'" in txt
         rep.check(ok, "template-agreement", f"{RD}::{nm}::trailing-slash",
                   f"{nm} does not normalise a datapath without trailing '/', the other side "
                   "does: the reader would look for '<dir>it_N.hdf5'", node=fn)
     # both de-duplicate and sort the iterations the same way
+    norms = {}
     for fn, nm in ((sv, "save_data"), (rd, "read_aurel_data")):
-        ok = any(isinstance(n, ast.Assign) and unparse(n.targets[0]) == "it"
-                 and unparse(n.value).startswith("sorted(set(kwargs.get('it'")
-                 for n in ast.walk(fn))
-        rep.check(ok, "template-agreement", f"{RD}::{nm}::it-normalisation",
+        binds = [n for n in ast.walk(fn) if isinstance(n, ast.Assign)
+                 and "kwargs.get('it'" in unparse(n.value)]
+        if len(binds) != 1:
+            raise AnalysisError(f"{nm}: the binding of the iterations from kwargs not found")
+        norms[nm] = unparse(binds[0].value)
+        rep.check(norms[nm].startswith("sorted(set(kwargs.get('it'"), "template-agreement",
+                  f"{RD}::{nm}::it-normalisation",
                   "iterations must be normalised with sorted(set(kwargs.get('it', ...)))",
-                  node=fn)
+                  node=binds[0])
 
 
 def one_append_per_column(rep):
@@ -449,30 +730,32 @@ def one_append_per_column(rep):
 def cache_fill_provenance(rep):
     fn = fnode(rep, "read_ET_data")
     key = f"{RD}::read_ET_data"
-    fills = [n for n in ast.walk(fn) if isinstance(n, ast.Assign)
-             and unparse(n.targets[0]).startswith("datar[restart][av][")
-             and "data_temp[av][" in unparse(n.value)]
+    fills = []
+    for n in ast.walk(fn):
+        if isinstance(n, ast.Assign) and unparse(n.targets[0]).startswith("datar[restart][av][") \
+                and isinstance(n.targets[0], ast.Subscript):
+            v = resolve(fn, n.value, 0, {"data_temp", "datar", "its_missing", "it", "avar"})
+            if isinstance(v, ast.Subscript) and unparse(v.value) == "data_temp[av]":
+                fills.append((n, v))
     if len(fills) != 1:
         raise AnalysisError("read_ET_data: fill statement datar[..][av][i] = data_temp[av][j] "
                             "not found")
-    st = fills[0]
+    st, val = fills[0]
     tgt_idx = unparse(st.targets[0].slice)
-    src_idx = unparse(st.value.slice)
+    src = val.slice
+    src_idx = unparse(src)
     # source index: lookup of the iteration value in data_temp['it']
-    defs = [a for a in assignments_to(fn, src_idx) if isinstance(a, ast.Assign)]
     loops = [a for a in ancestors(st) if isinstance(a, ast.For)]
     itv = None
     for lp in loops:
         if "enumerate(it)" in unparse(lp.iter):
             itv = [unparse(e) for e in lp.target.elts]
-    ok = bool(defs) and itv is not None and all(
-        "data_temp['it']" in unparse(d.value) and itv[1] in
-        [x.id for x in ast.walk(d.value) if isinstance(x, ast.Name)] for d in defs)
+    ok = itv is not None and "data_temp['it']" in src_idx and itv[1] in \
+        [x.id for x in ast.walk(src) if isinstance(x, ast.Name)]
     rep.check(ok, "row-index-provenance", key + "::fill-source-row",
-              f"the row `{src_idx}` taken from the freshly read data for iteration "
+              f"the row `{src_idx[:60]}` taken from the freshly read data for iteration "
               f"`{itv[1] if itv else '?'}` is not looked up in data_temp['it'] (the iterations "
-              "that were actually read, a superset shared by all components): "
-              + "; ".join(norm_src(d)[:70] for d in defs), node=st)
+              "that were actually read, a superset shared by all components)", node=st)
     rep.check(itv is not None and tgt_idx == itv[0], "row-index-provenance",
               key + "::fill-target-row",
               "the target row must enumerate the iteration list the cache was read with",
@@ -520,6 +803,54 @@ def cache_fill_provenance(rep):
     rep.check(ok, "row-index-provenance", key + "::cache-write-args",
               "the cache writer must receive data_temp with it = its_missing[av] and "
               "vars = [av]", node=sv[0])
+
+
+def iteration_labels(rep):
+    """Every ET reader normalises the requested iterations itself (its rows come out in the
+    order of its own `it`), and read_ET_variables labels the merged result with *its* `it`:
+    labels and rows agree only if all of them apply the same normalisation to
+    kwargs['it'] -- the one read_ET_group_or_var uses to order the rows it emits."""
+    key = f"{RD}::iteration-labels"
+    norm = {}
+    for q in ("read_ET_variables", "read_ET_group_or_var", "read_ET_checkpoints"):
+        fn = fnode(rep, q)
+        binds = [a for a in fn.body if isinstance(a, ast.Assign)
+                 and unparse(a.targets[0]) == "it"]
+        if len(binds) != 1 or "kwargs" not in unparse(binds[0].value):
+            raise AnalysisError(f"{q}: the binding of `it` from kwargs was not found")
+        norm[q] = (unparse(binds[0].value), binds[0])
+    rows = norm["read_ET_group_or_var"][0]
+    for q, (txt, node) in norm.items():
+        rep.check(txt == rows, "iteration-labels", f"{key}::{q}",
+                  f"{q} normalises the requested iterations as `{txt}` but the rows are emitted "
+                  f"by read_ET_group_or_var in the order of `{rows}`: the 'it' labels (and "
+                  "everything that looks rows up through them) no longer line up with the rows "
+                  "for an unsorted or repeated request", node=node)
+    # the label column is that very list
+    fn = fnode(rep, "read_ET_variables")
+    lab = [n for n in ast.walk(fn) if isinstance(n, ast.Dict)
+           and any(isinstance(k, ast.Constant) and k.value == "it" for k in n.keys)]
+    ok = False
+    for d in lab:
+        for k, v in zip(d.keys, d.values):
+            if isinstance(k, ast.Constant) and k.value == "it":
+                names = {x.id for x in ast.walk(v) if isinstance(x, ast.Name)}
+                ok = "it" in names
+    if not lab:
+        raise AnalysisError("read_ET_variables: the result dictionary with its 'it' label "
+                            "was not found")
+    rep.check(ok, "iteration-labels", f"{key}::label-is-it",
+              "the 'it' column of the result of read_ET_variables must be its normalised `it`",
+              node=lab[0])
+    # rows are emitted in the order of `it`
+    fn = fnode(rep, "read_ET_group_or_var")
+    emit = [n for n in ast.walk(fn) if isinstance(n, ast.For) and unparse(n.iter) == "it"
+            and any(isinstance(x, (ast.AugAssign, ast.Call)) and "append" in unparse(x)
+                    or isinstance(x, ast.AugAssign) for x in ast.walk(n))]
+    if not emit:
+        raise AnalysisError("read_ET_group_or_var: the loop emitting one row per iteration of "
+                            "`it` was not found")
+    rep.ok("iteration-labels", f"{key}::rows-in-it-order")
 
 
 # =============================================================================================
@@ -618,62 +949,143 @@ def chunk_placement(rep):
                   "chunks are joined in dictionary (file/process enumeration) order along a "
                   "hard-wired axis, without looking at their recorded origins", node=c)
         axes_seen.append(ax)
-    # component <-> axis pairing of the three stages: keys are (x, y, z) origins, raw arrays
-    # are (z, y, x): component j joins along axis 2 - j, grouping by the other components
-    stages = []
-    for lp in [n for n in ast.walk(fn) if isinstance(n, ast.For)]:
-        apps = [c for c in ast.walk(lp) if isinstance(c, ast.Call)
-                and unparse(c.func) == "np.append" and c in joins]
-        if apps and not any(isinstance(x, ast.For) and any(
-                c in list(ast.walk(x)) for c in apps) and x is not lp for x in ast.walk(lp)):
-            ax = [const_value(k.value) for k in apps[0].keywords if k.arg == "axis"]
-            stages.append((lp, int(ax[0]) if ax and ax[0] is not None else None))
-    stages.sort(key=lambda x: x[0].lineno)
-    seq = [a for _lp, a in stages]
-    rep.check(sorted(a for a in seq if a is not None) == [0, 1, 2] and seq == [2, 1, 0],
+    # component <-> axis pairing of the joining stages.  Keys are (x, y, z) origins, raw arrays
+    # are (z, y, x): the stage that orders by origin component j must join along axis 2 - j and
+    # group by the remaining components.  Roles are read from the data flow, not from names:
+    #   grouping   D[G(k)][O(k)] = SRC[k]        (k the loop key, G / O subscripts of k)
+    #   joining    ACC[g] = np.append(ACC[g], D[g][o], axis)   for o in sorted keys of D[g]
+    def key_positions(node, kname, klen):
+        """positions of the key tuple selected by `node` (a subscript of the loop key)"""
+        if isinstance(node, ast.Subscript) and isinstance(node.value, ast.Name) \
+                and node.value.id == kname:
+            sl = node.slice
+            if isinstance(sl, ast.Slice) and sl.step is None:
+                lo = int(const_value(sl.lower)) if sl.lower is not None else 0
+                hi = int(const_value(sl.upper)) if sl.upper is not None else klen
+                return tuple(range(klen))[lo:hi]
+            c = const_value(sl)
+            if c is not None:
+                return (int(c) % klen,)
+        if isinstance(node, ast.Tuple):
+            out = ()
+            for e in node.elts:
+                r = key_positions(e, kname, klen)
+                if r is None:
+                    return None
+                out += r
+            return out
+        return None
+    groupings = []
+    for st in ast.walk(fn):
+        if isinstance(st, ast.Assign) and isinstance(st.targets[0], ast.Subscript) \
+                and isinstance(st.targets[0].value, ast.Subscript) \
+                and isinstance(st.targets[0].value.value, ast.Name) \
+                and isinstance(st.value, ast.Subscript) and isinstance(st.value.value, ast.Name) \
+                and isinstance(st.value.slice, ast.Name):
+            groupings.append((st.lineno, st.targets[0].value.value.id,
+                              st.targets[0].value.slice, st.targets[0].slice,
+                              st.value.value.id, st.value.slice.id, st))
+    groupings.sort(key=lambda g: g[0])
+    appends = []
+    for c in joins:
+        if unparse(c.func) != "np.append":
+            continue
+        ax = call_arg(c, 2, "axis")
+        ax = const_value(ax) if ax is not None else None
+        st = parent_stmt(c)
+        acc = st.targets[0] if isinstance(st, ast.Assign) else None
+        accname = None
+        root = acc
+        while isinstance(root, ast.Subscript):
+            root = root.value
+        if isinstance(root, ast.Name):
+            accname = root.id
+        src = c.args[1] if len(c.args) > 1 else None
+        root = src
+        while isinstance(root, ast.Subscript):
+            root = root.value
+        appends.append((c.lineno, int(ax) if ax is not None else None, accname,
+                        root.id if isinstance(root, ast.Name) else None, c))
+    appends.sort(key=lambda x: x[0])
+    if len(groupings) < 2 or len(appends) < 3:
+        raise AnalysisError("join_chunks: grouping / joining stages not recognised "
+                            f"({len(groupings)} groupings, {len(appends)} appends)")
+    remaining = [0, 1, 2]           # origin components still in the key
+    prev_acc = None
+    stage_ok, seq, why = True, [], []
+    gi = 0
+    for n, (ln, ax, accname, srcname, call) in enumerate(appends):
+        seq.append(ax)
+        if len(remaining) > 1:
+            if gi >= len(groupings):
+                stage_ok = False
+                why.append("a joining stage has no grouping stage")
+                break
+            _l, D, G, O, SRC, kname, gst = groupings[gi]
+            gi += 1
+            gpos = key_positions(G, kname, len(remaining))
+            opos = key_positions(O, kname, len(remaining))
+            if gpos is None or opos is None or len(opos) != 1:
+                raise AnalysisError("join_chunks: grouping subscripts not understood: "
+                                    + norm_src(gst))
+            if srcname != D:
+                stage_ok = False
+                why.append(f"stage {n + 1} appends from `{srcname}`, not from the groups "
+                           f"`{D}` built for it")
+            if prev_acc is not None and SRC != prev_acc:
+                stage_ok = False
+                why.append(f"stage {n + 1} groups `{SRC}`, not the result `{prev_acc}` of the "
+                           "previous stage")
+            comp = remaining[opos[0]]
+            rest = [remaining[i] for i in gpos]
+            if rest != [c for c in remaining if c != comp]:
+                stage_ok = False
+                why.append(f"stage {n + 1} orders by origin component {comp} but groups by "
+                           f"{rest}, not by all the other components")
+        else:
+            comp = remaining[0]
+            rest = []
+        if ax != 2 - comp:
+            stage_ok = False
+            why.append(f"stage {n + 1} orders by origin component {comp} ('xyz'[{comp}]) but "
+                       f"joins along raw axis {ax}; (z, y, x) arrays need axis {2 - comp}")
+        remaining = rest
+        prev_acc = accname
+    rep.check(stage_ok and sorted(a for a in seq if a is not None) == [0, 1, 2],
               "chunk-axis", key + "::stage-axes",
-              f"the three joining stages must run along raw axes 2, 1, 0 (x, y, z origins of "
-              f"(z, y, x) arrays); found {seq}", node=fn)
-    groupers = [n for n in ast.walk(fn) if isinstance(n, ast.Subscript)
-                and unparse(n) in ("k[1:]", "k[1]", "k[0]")]
-    txt = unparse(fn)
-    ok = "ndata_groups[k[1:]][k[0]] = cut_data[k]" in txt and \
-        "nndata_groups[k[1]][k[0]] = ndata[k]" in txt
-    rep.check(ok and bool(groupers), "chunk-axis", key + "::grouping",
-              "stage 1 must group by the (y, z) origin and order by x, stage 2 group by z and "
-              "order by y", node=fn)
+              "the joining stages must pair origin component j with raw axis 2 - j and group "
+              f"by the remaining components; axes {seq}: " + "; ".join(why), node=fn)
+    rep.ok("chunk-axis", key + "::grouping")
 
 
 def ghost_and_axes(rep):
+    """Decided on resolved expressions (temporaries and aliases substituted)."""
+    import re
     S = rep.sources
+    comp_rx = re.compile(r"\.attrs\['cctk_nghostzones'\]\[(-?\d)\]$")
     for q in ("read_ET_group_or_var", "read_ET_checkpoints"):
         fn = S.function(RD, q)
         key = f"{RD}::{q}"
-        # resolve ghost_* names
-        gmap = {}
+        # every subscript whose slice is built from the recorded ghost widths
+        trims = []
         for n in ast.walk(fn):
-            if isinstance(n, ast.Assign) and isinstance(n.targets[0], ast.Name) \
-                    and "cctk_nghostzones" in unparse(n.value) \
-                    and isinstance(n.value, ast.Subscript):
-                c = const_value(n.value.slice)
-                if c is not None:
-                    gmap[n.targets[0].id] = int(c)
-        trims = [n for n in ast.walk(fn) if isinstance(n, ast.Assign)
-                 and isinstance(n.value, ast.Subscript)
-                 and unparse(n.value.value) == unparse(n.targets[0])
-                 and ("ghost" in unparse(n.value.slice) or "slice(" in unparse(n.value.slice))]
+            if isinstance(n, ast.Subscript) and isinstance(n.ctx, ast.Load):
+                txt = rtext(fn, n.slice)
+                if "cctk_nghostzones" in txt and (":" in txt or "slice(" in txt):
+                    trims.append(n)
         if not trims:
             raise AnalysisError(f"{q}: ghost-zone trimming not found")
         for t in trims:
-            sl = t.value.slice
+            sl = resolve(fn, t.slice)
             ok, why = False, ""
             if isinstance(sl, ast.Tuple) and all(isinstance(e, ast.Slice) for e in sl.elts):
                 pairs = []
                 for i, e in enumerate(sl.elts):
-                    lo = unparse(e.lower) if e.lower is not None else None
-                    hi = unparse(e.upper) if e.upper is not None else None
-                    comp = gmap.get(lo)
-                    pairs.append((i, comp, hi == f"-{lo}"))
+                    lo = unparse(e.lower) if e.lower is not None else ""
+                    hi = unparse(e.upper) if e.upper is not None else ""
+                    m = comp_rx.search(lo)
+                    comp = int(m.group(1)) % 3 if m else None
+                    pairs.append((i, comp, hi in (f"-{lo}", f"-({lo})")))
                 ok = len(pairs) == 3 and all(comp == 2 - i and sym for i, comp, sym in pairs)
                 why = (f"raw arrays are stored (z, y, x) and cctk_nghostzones is (x, y, z): "
                        f"axis i must be trimmed by nghostzones[2-i] on both sides; found "
@@ -686,23 +1098,33 @@ def ghost_and_axes(rep):
                 if "[::-1]" in txt or "reversed(" in txt:
                     ok = True
             rep.check(ok, "storage-order", key + "::ghost-trim", why, node=t)
-        # chunk dict keyed by the recorded origin
-        ok = any(isinstance(n, ast.Assign) and unparse(n.targets[0]) == "iorigin"
-                 and unparse(n.value) == "tuple(f[key].attrs['iorigin'])" for n in ast.walk(fn)) \
-            and "[iorigin] = var_array" in unparse(fn)
+        # chunk dict keyed by the recorded origin: a store  <chunks>[tuple(attrs['iorigin'])]
+        ok = False
+        for n in ast.walk(fn):
+            if isinstance(n, ast.Assign) and isinstance(n.targets[0], ast.Subscript):
+                k = rtext(fn, n.targets[0].slice)
+                if k.startswith("tuple(") and k.endswith(".attrs['iorigin'])"):
+                    ok = True
         rep.check(ok, "storage-order", key + "::keyed-by-origin",
                   "chunks must be stored under tuple(attrs['iorigin'])", node=fn)
         # fixij applied exactly once, after joining
         calls = walk_calls(fn, "fixij")
-        ok = len(calls) == 1 and unparse(calls[0].args[0]).startswith("join_chunks(")
+        ok = len(calls) == 1 and rtext(fn, calls[0].args[0]).startswith("join_chunks(")
         rep.check(ok, "storage-order", key + "::fixij-after-join",
                   "the (z,y,x)->(x,y,z) transposition must be applied once, to the joined array",
                   node=fn)
     fx = S.function(RD, "fixij")
-    ret = [n for n in ast.walk(fx) if isinstance(n, ast.Return)][0]
-    rep.check("(2, 1, 0)" in unparse(ret.value) and "np.transpose" in unparse(ret.value),
-              "storage-order", f"{RD}::fixij", "fixij must be the axis reversal (2, 1, 0)",
-              node=fx)
+    rets = [n for n in ast.walk(fx) if isinstance(n, ast.Return)]
+    ok = False
+    if len(rets) == 1 and isinstance(rets[0].value, ast.Call) \
+            and unparse(rets[0].value.func) == "np.transpose":
+        perm = call_arg(rets[0].value, 1, "axes")
+        arr = rtext(fx, rets[0].value.args[0]) if rets[0].value.args else ""
+        p0 = fx.args.args[0].arg
+        ok = perm is not None and unparse(perm).replace(" ", "") in ("(2,1,0)", "[2,1,0]") \
+            and arr in (p0, f"np.array({p0})", f"np.asarray({p0})")
+    rep.check(ok, "storage-order", f"{RD}::fixij",
+              "fixij must be the axis reversal (2, 1, 0) of its argument", node=fx)
 
 
 def restart_selection(rep):
@@ -1010,9 +1432,17 @@ def regex_users(rep):
                 if is_int and gi["optional"]:
                     # must be guarded by a test of the same group
                     guarded = False
+                    child = n
                     for a in ancestors(n):
-                        if isinstance(a, ast.IfExp) and unparse(a.test) == unparse(n):
-                            guarded = True
+                        # inside the true side of a test of that very group (truthiness or
+                        # `is not None`), as a conditional expression or an if statement
+                        if isinstance(a, (ast.IfExp, ast.If)):
+                            t = unparse(a.test)
+                            body = a.body if isinstance(a.body, list) else [a.body]
+                            inside = any(child is x or child in list(ast.walk(x)) for x in body)
+                            if inside and t in (unparse(n), unparse(n) + " is not None"):
+                                guarded = True
+                        child = a
                     if not guarded:
                         ok, why = False, f"optional group {g} converted without a presence test"
                 rep.check(ok, "regex-groups", key, why, node=n)
@@ -1033,18 +1463,41 @@ def regex_users(rep):
 
 def content_file(rep):
     fn = fnode(rep, "get_content")
-    txt = unparse(fn)
-    ok = "tuple(key_str.split(','))" in txt and "content_data[','.join(key)] = value" in txt
-    rep.check(ok, "separator", f"{RD}::get_content::key-separator",
-              "variable tuples must be joined and split with the same separator ','", node=fn)
-    rep.check("," not in "".join(sorted(PATH_ALPHABET)) and "json.load(f)" in txt
-              and "json.dump(content_data, f" in txt, "separator",
-              f"{RD}::get_content::json-pair", "content.txt must be a json dump/load pair",
-              node=fn)
+    # every split that rebuilds a key tuple and every join that flattens one use one literal
+    # separator (whatever the surrounding loop / comprehension looks like)
+    splits, joins = [], []
+    for n in ast.walk(fn):
+        if isinstance(n, ast.Call) and isinstance(n.func, ast.Attribute) and len(n.args) == 1:
+            if n.func.attr == "split" and isinstance(n.args[0], ast.Constant) \
+                    and isinstance(getattr(n, "_parent", None), ast.Call) \
+                    and unparse(n._parent.func) == "tuple":
+                splits.append(n.args[0].value)
+            if n.func.attr == "join" and isinstance(n.func.value, ast.Constant) \
+                    and isinstance(n.func.value.value, str):
+                par = getattr(n, "_parent", None)
+                # used as a dictionary key (subscript store or dict comprehension key)
+                if (isinstance(par, ast.Subscript) and par.slice is n) or \
+                        (isinstance(par, ast.DictComp) and par.key is n):
+                    joins.append(n.func.value.value)
+    if not splits or not joins:
+        raise AnalysisError("get_content: key join / split of the content file not found")
+    seps = set(splits) | set(joins)
+    rep.check(len(seps) == 1 and len(next(iter(seps))) == 1, "separator",
+              f"{RD}::get_content::key-separator",
+              f"variable tuples must be joined and split with the same separator; found "
+              f"join {sorted(set(joins))} split {sorted(set(splits))}", node=fn)
+    sep = next(iter(seps))
+    loads = [n for n in ast.walk(fn) if isinstance(n, ast.Call)
+             and unparse(n.func) == "json.load"]
+    dumps = [n for n in ast.walk(fn) if isinstance(n, ast.Call)
+             and unparse(n.func) == "json.dump"]
+    rep.check(sep not in "".join(sorted(PATH_ALPHABET)) and bool(loads) and bool(dumps),
+              "separator", f"{RD}::get_content::json-pair",
+              "content.txt must be a json dump/load pair", node=fn)
     # variable names cannot contain the separator: rx_h5file alphabet and known_groups
     S = rep.sources
     y = S.yaml("data/var_mappings.yml")
-    bad = [v for vs in y["known_groups"].values() for v in vs if "," in v]
+    bad = [v for vs in y["known_groups"].values() for v in vs if sep in v]
     rep.check(not bad, "separator", "data/var_mappings.yml::known_groups",
               f"variable names containing the separator: {bad}", file="data/var_mappings.yml")
     # the scan result must not be remembered in module state
@@ -1058,7 +1511,13 @@ def content_file(rep):
               "restart/simulation in the same session reuses it instead of what is on disk: "
               + (norm_src(stores[0])[:60] if stores else ""), node=stores[0] if stores else fn)
     # processed_groups is local to one call
-    ok = any(isinstance(n, ast.Assign) and unparse(n) == "processed_groups = {}"
-             for n in ast.walk(fn))
+    # the memo that is consulted with `base_name in <memo>` is a dict created in this call
+    memos = {unparse(n.targets[0].value) for n in ast.walk(fn) if isinstance(n, ast.Assign)
+             and isinstance(n.targets[0], ast.Subscript)
+             and isinstance(n.targets[0].value, ast.Name)
+             and "base_name" in unparse(n.targets[0].slice)}
+    ok = bool(memos) and all(any(isinstance(a, ast.Assign) and unparse(a.targets[0]) == m
+                                 and unparse(a.value) in ("{}", "dict()")
+                                 for a in ast.walk(fn)) for m in memos)
     rep.check(ok, "module-state", f"{RD}::get_content::per-call-memo",
               "the per-call memo of group contents must be created inside the call", node=fn)
